@@ -21,7 +21,10 @@ func vPriv(i int) (raw [64]byte, addr sdk.Address) {
 	return
 }
 
-var vPass = []string{"", "p@ss-one", "pässwörd-two"}
+// empty, ascii, unicode, and two long passphrases (70 bytes) that differ in their last byte only
+var vPass = []string{"", "p@ss-one", "pässwörd-two",
+	"0123456789012345678901234567890123456789012345678901234567890123456789",
+	"012345678901234567890123456789012345678901234567890123456789012345678X"}
 
 type vEntry struct {
 	present bool
@@ -53,7 +56,7 @@ func VerifC19_Keybase() {
 		raws[i], addrs[i] = vPriv(i)
 	}
 	// setup: key 0 is imported under one of the passphrases, optionally made the coinbase (cached in the keybase object)
-	p0 := vPass[zz.Choice("pass0", 3)]
+	p0 := []string{vPass[1], vPass[3], vPass[0]}[zz.Choice("pass0", 3)]
 	if _, err := kb.ImportPrivateKeyObject(raws[0], p0); err != nil {
 		panic(err)
 	}
@@ -71,7 +74,14 @@ func VerifC19_Keybase() {
 			k = zz.Choice("key", 2)
 			nops = 6
 		}
-		p := vPass[zz.Choice("pass", 3)]
+		// the passphrase offered: the stored one of key 0 (right for key 0), a near miss of it (another ascii word / the
+		// long passphrase with a different last byte), or the empty one
+		near := map[string]string{vPass[0]: vPass[1], vPass[1]: vPass[2], vPass[2]: vPass[1], vPass[3]: vPass[4], vPass[4]: vPass[3]}
+		cur := model[0].pass
+		if !model[0].present {
+			cur = p0
+		}
+		p := []string{cur, near[cur], vPass[0]}[zz.Choice("pass", 3)]
 		switch zz.Choice("op", nops) {
 		case 0: // import
 			_, err := kb.ImportPrivateKeyObject(raws[k], p)
@@ -80,7 +90,7 @@ func VerifC19_Keybase() {
 				model[k] = vEntry{true, p}
 			}
 		case 1: // update passphrase
-			np := vPass[1+zz.Choice("newpass", 2)]
+			np := []string{vPass[2], vPass[4]}[zz.Choice("newpass", 2)]
 			err := kb.Update(addrs[k], p, np)
 			zz.Assert("C19.keybase.update-needs-right-passphrase", (err == nil) == (model[k].present && model[k].pass == p))
 			if err == nil {
@@ -100,12 +110,17 @@ func VerifC19_Keybase() {
 				zz.Assert("C19.keybase.signature-verifies-under-that-key", pub.VerifyBytes(msg, sig) && bytes.Equal(pub.Address(), addrs[k]))
 			}
 		case 4: // export (re-encrypted under another passphrase) and import into a second keybase
+			// the export passphrase may be the same as the (right or wrong) decryption passphrase; the hint may be empty
 			ep := vPass[zz.Choice("exportpass", 2)]
-			armor, err := kb.ExportPrivKeyEncryptedArmor(addrs[k], p, ep, "hint")
+			if zz.Choice("export_same_passphrase", 2) == 1 {
+				ep = p
+			}
+			hint := []string{"hint", ""}[zz.Choice("hint", 2)]
+			armor, err := kb.ExportPrivKeyEncryptedArmor(addrs[k], p, ep, hint)
 			zz.Assert("C19.keybase.export-needs-right-passphrase", (err == nil) == (model[k].present && model[k].pass == p))
 			if err == nil {
 				other := NewInMemory()
-				ip := vPass[zz.Choice("importpass", 2)]
+				ip := []string{ep, near[ep]}[zz.Choice("importpass", 2)]
 				kp, err2 := other.ImportPrivKey(armor, ip, "fresh")
 				zz.Assert("C19.keybase.import-needs-export-passphrase", (err2 == nil) == (ip == ep))
 				if err2 == nil {
